@@ -8,8 +8,10 @@
 //   rp  <pattern>                                          -> <isRelativePattern> <isAbsolute>
 //   jn  <a> <b>                                            -> hex          (Path::join)
 //   grp <abs> <n> <basepath>*n                             -> hex          (Path::getRelativePath)
-//   ls  <casedir> <patharg> <base> <ni> <ign>*ni <ne> <extra>*ne <ntop> <tree>   (tree: d <name> <k> <tree>*k | f <name>)
+//   ls  <casedir> <patharg> <nodepath> <base> <ni> <ign>*ni <ne> <extra>*ne <ntop> <tree>*ntop
 //                                                           -> E<err> <count> {<path>:<lang>}*
+//       tree: d <name> <k> <tree>*k | f <name>, created inside the fresh directory <casedir>, which becomes the cwd;
+//       <nodepath> (names from casedir to the node <patharg> refers to, "!" = nothing) is for the model only
 #include "common.h"
 #include "pathmatch.h"
 #include "path.h"
@@ -96,11 +98,11 @@ int main()
                 std::vector<std::string> bps;
                 for (size_t k = 0; k < n && 3 + k < f.size(); ++k) bps.push_back(unhex(f[3 + k]));
                 out = hex(Path::getRelativePath(unhex(f[1]), bps));
-            } else if (f.size() >= 7 && f[0] == "ls") {
+            } else if (f.size() >= 8 && f[0] == "ls") {
                 const std::string casedir = unhex(f[1]);
                 const std::string patharg = unhex(f[2]);
-                const std::string base = unhex(f[3]);
-                size_t i = 4;
+                const std::string base = unhex(f[4]);
+                size_t i = 5;
                 const size_t ni = std::stoul(f.at(i++));
                 std::vector<std::string> ign;
                 for (size_t k = 0; k < ni; ++k) ign.push_back(unhex(f.at(i++)));
